@@ -699,3 +699,83 @@ Proof.
     assert (length (d_loose d2) = 0%nat); [|destruct (d_loose d2); [reflexivity|discriminate]].
     rewrite Hl0 in L1. cbn [length] in L1. rewrite (Permutation_length Pm), (Permutation_length PW) in L2. lia.
 Qed.
+
+(* ------------------------------------------------------------------ *)
+(* every window cell is registered (cells_ is a permutation of the window) *)
+Lemma regions_of_incl d cs : forall todo rgs c es, regions_of d cs todo = Some rgs -> In c todo -> add_cell d cs c = Some es ->
+  forall e, In e es -> In e rgs.
+Proof.
+  induction todo as [|c0 t IH]; intros rgs c es R Hc A e He; [destruct Hc|]. cbn [regions_of] in R.
+  destruct (add_cell d cs c0) as [es0|] eqn:A0; [|discriminate]. destruct (regions_of d cs t) as [rs|] eqn:R0; [|discriminate].
+  injection R as <-. apply in_or_app. destruct Hc as [->|Hc]; [left; rewrite A in A0; injection A0 as <-; exact He|right; exact (IH rs c es eq_refl Hc A e He)].
+Qed.
+
+Lemma find_row_at d i r a m b : NoDup (map p_id (cells_of d)) -> nth_error (d_rows d) i = Some r -> dr_cells r = a ++ m :: b ->
+  find_row (d_rows d) (p_id m) 0 = Some (i, r, a, m, b).
+Proof.
+  intros ND Hn Hc. pose proof (placed_nodup d ND) as NDp.
+  assert (Hin : In m (dr_cells r)) by (rewrite Hc; apply in_or_app; right; left; reflexivity).
+  pose proof (entry_pos d r m ND (nth_error_In _ _ Hn) Hin) as P. unfold pos_in in P.
+  destruct (find_row (d_rows d) (p_id m) 0) as [[[[[i' r'] a'] m'] b']|] eqn:Fd; [|discriminate].
+  pose proof Fd as Fs. apply find_row_spec in Fs as (k & -> & Hn' & Hc' & Hid'). cbn [Nat.add] in *.
+  destruct (Nat.eq_dec k i) as [->|Hne];
+    [|exfalso; apply (rows_ids_disjoint _ NDp k i r' r m' m Hn' Hn Hne); [rewrite Hc'; apply in_or_app; right; left; reflexivity|exact Hin|exact Hid']].
+  rewrite Hn in Hn'. injection Hn' as <-. pose proof (row_ids_nodup _ _ _ NDp Hn) as NDr.
+  destruct (prefix_unique _ _ _ _ _ _ _ NDr Hc' Hc Hid') as (-> & -> & ->). reflexivity.
+Qed.
+
+Lemma regions_of_found d cs : forall todo rgs, regions_of d cs todo = Some rgs -> forall c, In c todo ->
+  exists i r a m b, nth_error (d_rows d) i = Some r /\ dr_cells r = a ++ m :: b /\ p_id m = c.
+Proof.
+  induction todo as [|c0 t IH]; intros rgs R c Hc; [destruct Hc|]. cbn [regions_of] in R.
+  destruct (add_cell d cs c0) as [es0|] eqn:A0; [|discriminate]. destruct (regions_of d cs t) as [rs|] eqn:R0; [|discriminate].
+  destruct Hc as [->|Hc]; [|exact (IH rs eq_refl c Hc)]. unfold add_cell in A0.
+  destruct (find_row (d_rows d) c 0) as [[[[[i r] a] m] b]|] eqn:Fd; [|discriminate].
+  apply find_row_spec in Fd as (k & -> & Hn & Hcr & Hid). exists (0 + k)%nat, r, a, m, b. tauto.
+Qed.
+
+Lemma registered_covers d cs rgs : NoDup (map p_id (cells_of d)) -> NoDup cs -> regions_of d cs cs = Some rgs ->
+  forall c, In c cs -> In c (map p_id (registered rgs)).
+Proof.
+  intros ND NDc R. pose proof (placed_nodup d ND) as NDp.
+  assert (Hcs : forall x, In x cs -> mem x cs = true) by (intros x Hx; apply mem_in; exact Hx).
+  destruct (regions_of_spec d cs cs rgs Hcs NDc R) as (F & _ & _). rewrite Forall_forall in F.
+  assert (Start : forall a i r m b, nth_error (d_rows d) i = Some r -> dr_cells r = a ++ m :: b -> In (p_id m) cs ->
+            opt_mem (pred_of a) cs = false -> exists e, In e rgs /\ In m (snd e)).
+  { intros a i r m b Hn Hc Hm Op. eexists. split.
+    - apply (regions_of_incl d cs cs rgs (p_id m) _ R Hm); [unfold add_cell; rewrite (find_row_at d i r a m b ND Hn Hc), Op; reflexivity|left; reflexivity].
+    - cbn [snd fst run_of]. rewrite (Hcs _ Hm). left. reflexivity. }
+  assert (G : forall a i r m b, nth_error (d_rows d) i = Some r -> dr_cells r = a ++ m :: b -> In (p_id m) cs ->
+            exists e, In e rgs /\ In m (snd e)).
+  { induction a as [|x a0 IHa0] using rev_ind; intros i r m b Hn Hc Hm; [apply (Start [] i r m b Hn Hc Hm); reflexivity|].
+    destruct (mem (p_id x) cs) eqn:Mx; [|apply (Start _ i r m b Hn Hc Hm); rewrite pred_of_last; exact Mx].
+    assert (Hx : In (p_id x) cs) by (apply mem_in; exact Mx).
+    rewrite <- app_assoc in Hc. cbn [app] in Hc.
+    destruct (IHa0 i r x (m :: b) Hn Hc Hx) as (e & He & Hxe). exists e. split; [exact He|].
+    destruct (F e He) as (r1 & a1 & m1 & run1 & rest1 & Hn1 & Hc1 & E1 & _ & _ & M1 & B1 & _).
+    destruct (in_row_of d cs e x (F e He) Hxe) as (r2 & Hn2 & Hr2). rewrite Hn1 in Hn2. injection Hn2 as <-.
+    destruct (Nat.eq_dec (rg_row (fst e)) i) as [Ei|Hne];
+      [|exfalso; apply (rows_ids_disjoint _ NDp _ _ r1 r x x Hn1 Hn Hne Hr2); [rewrite Hc; apply in_or_app; right; left; reflexivity|reflexivity]].
+    rewrite Ei, Hn in Hn1. injection Hn1 as <-. apply in_split in Hxe as (u & v & Eu).
+    pose proof (row_ids_nodup _ _ _ NDp Hn) as NDr.
+    assert (D1 : dr_cells r = (a1 ++ u) ++ x :: (v ++ rest1)) by (rewrite Hc1, Eu, <- !app_assoc; reflexivity).
+    destruct (prefix_unique _ _ _ _ _ _ _ NDr Hc D1 eq_refl) as (_ & _ & Et).
+    destruct v as [|y v']; cbn [app] in Et.
+    - exfalso. rewrite <- Et in B1. rewrite (Hcs _ Hm) in B1. discriminate.
+    - injection Et as <- _. rewrite Eu. apply in_or_app. right. right. left. reflexivity. }
+  intros c Hc. destruct (regions_of_found d cs cs rgs R c Hc) as (i & r & a & m & b & Hn & Hcr & Hid).
+  destruct (G a i r m b Hn Hcr) as (e & He & Hme); [rewrite Hid; exact Hc|].
+  apply in_map_iff. exists m. split; [exact Hid|]. apply in_flat_map. exists e. tauto.
+Qed.
+
+(* cells_ (sorted with std::greater) is a permutation of the window *)
+Theorem cells_perm_window d cs rgs : NoDup (map p_id (cells_of d)) -> NoDup cs -> regions_of d cs cs = Some rgs ->
+  Permutation cs (rev (sort_asc (map p_id (registered rgs)))).
+Proof.
+  intros ND NDc R. assert (Hcs : forall x, In x cs -> mem x cs = true) by (intros x Hx; apply mem_in; exact Hx).
+  destruct (regions_of_spec d cs cs rgs Hcs NDc R) as (F & NF & _).
+  eapply perm_trans; [|eapply perm_trans; [apply sort_asc_perm|apply Permutation_rev]].
+  apply NoDup_Permutation; [exact NDc|exact (registered_nodup d cs rgs ND F NF)|]. intros x. split.
+  - exact (registered_covers d cs rgs ND NDc R x).
+  - intros Hx. apply in_map_iff in Hx as (z & <- & Hz). apply mem_in. exact (registered_mem d cs rgs z F Hz).
+Qed.
